@@ -145,7 +145,7 @@ theorem tb_clearBits (f m i : Nat) (hi : i < 32) :
   cases f.testBit i <;> cases m.testBit i <;> rfl
 
 /-- the bits the opacity decision reads -/
-def Tracked (i : Nat) : Prop := i = 7 ∨ i = 13 ∨ i = 23 ∨ i = 24 ∨ i = 17
+def Tracked (i : Nat) : Prop := i = 7 ∨ i = 13 ∨ i = 23 ∨ i = 24 ∨ i = 17 ∨ i = 0
 
 /-- alpha map, convolution filter or component alpha: IS_OPAQUE and SAMPLES_OPAQUE are cleared -/
 def killed (p : Props) (am : Option Nat) : Bool :=
@@ -302,8 +302,36 @@ theorem cb_SAMPLES_COVER_CLIP_BILINEAR_17 : FAST_PATH_SAMPLES_COVER_CLIP_BILINEA
 theorem cb_BITS_IMAGE_17 : FAST_PATH_BITS_IMAGE.testBit 17 = false := by decide
 theorem cb_SEPARABLE_CONVOLUTION_FILTER_17 : FAST_PATH_SEPARABLE_CONVOLUTION_FILTER.testBit 17 = false := by decide
 
+theorem cb_ID_TRANSFORM_0 : FAST_PATH_ID_TRANSFORM.testBit 0 = true := by decide
+theorem cb_NO_ALPHA_MAP_0 : FAST_PATH_NO_ALPHA_MAP.testBit 0 = false := by decide
+theorem cb_NO_CONVOLUTION_FILTER_0 : FAST_PATH_NO_CONVOLUTION_FILTER.testBit 0 = false := by decide
+theorem cb_NO_PAD_REPEAT_0 : FAST_PATH_NO_PAD_REPEAT.testBit 0 = false := by decide
+theorem cb_NO_REFLECT_REPEAT_0 : FAST_PATH_NO_REFLECT_REPEAT.testBit 0 = false := by decide
+theorem cb_NO_ACCESSORS_0 : FAST_PATH_NO_ACCESSORS.testBit 0 = false := by decide
+theorem cb_NARROW_FORMAT_0 : FAST_PATH_NARROW_FORMAT.testBit 0 = false := by decide
+theorem cb_COMPONENT_ALPHA_0 : FAST_PATH_COMPONENT_ALPHA.testBit 0 = false := by decide
+theorem cb_SAMPLES_OPAQUE_0 : FAST_PATH_SAMPLES_OPAQUE.testBit 0 = false := by decide
+theorem cb_UNIFIED_ALPHA_0 : FAST_PATH_UNIFIED_ALPHA.testBit 0 = false := by decide
+theorem cb_SCALE_TRANSFORM_0 : FAST_PATH_SCALE_TRANSFORM.testBit 0 = false := by decide
+theorem cb_NEAREST_FILTER_0 : FAST_PATH_NEAREST_FILTER.testBit 0 = false := by decide
+theorem cb_HAS_TRANSFORM_0 : FAST_PATH_HAS_TRANSFORM.testBit 0 = false := by decide
+theorem cb_IS_OPAQUE_0 : FAST_PATH_IS_OPAQUE.testBit 0 = false := by decide
+theorem cb_NO_NORMAL_REPEAT_0 : FAST_PATH_NO_NORMAL_REPEAT.testBit 0 = false := by decide
+theorem cb_NO_NONE_REPEAT_0 : FAST_PATH_NO_NONE_REPEAT.testBit 0 = false := by decide
+theorem cb_X_UNIT_POSITIVE_0 : FAST_PATH_X_UNIT_POSITIVE.testBit 0 = false := by decide
+theorem cb_AFFINE_TRANSFORM_0 : FAST_PATH_AFFINE_TRANSFORM.testBit 0 = false := by decide
+theorem cb_Y_UNIT_ZERO_0 : FAST_PATH_Y_UNIT_ZERO.testBit 0 = false := by decide
+theorem cb_BILINEAR_FILTER_0 : FAST_PATH_BILINEAR_FILTER.testBit 0 = false := by decide
+theorem cb_ROTATE_90_TRANSFORM_0 : FAST_PATH_ROTATE_90_TRANSFORM.testBit 0 = false := by decide
+theorem cb_ROTATE_180_TRANSFORM_0 : FAST_PATH_ROTATE_180_TRANSFORM.testBit 0 = false := by decide
+theorem cb_ROTATE_270_TRANSFORM_0 : FAST_PATH_ROTATE_270_TRANSFORM.testBit 0 = false := by decide
+theorem cb_SAMPLES_COVER_CLIP_NEAREST_0 : FAST_PATH_SAMPLES_COVER_CLIP_NEAREST.testBit 0 = false := by decide
+theorem cb_SAMPLES_COVER_CLIP_BILINEAR_0 : FAST_PATH_SAMPLES_COVER_CLIP_BILINEAR.testBit 0 = false := by decide
+theorem cb_BITS_IMAGE_0 : FAST_PATH_BITS_IMAGE.testBit 0 = false := by decide
+theorem cb_SEPARABLE_CONVOLUTION_FILTER_0 : FAST_PATH_SEPARABLE_CONVOLUTION_FILTER.testBit 0 = false := by decide
+
 macro "bits_simp" : tactic =>
-  `(tactic| simp only [Nat.testBit_or, tb_clearBits _ _ _ (by decide : (7:Nat) < 32), tb_clearBits _ _ _ (by decide : (13:Nat) < 32), tb_clearBits _ _ _ (by decide : (23:Nat) < 32), tb_clearBits _ _ _ (by decide : (24:Nat) < 32), tb_clearBits _ _ _ (by decide : (17:Nat) < 32), cb_ID_TRANSFORM_17, cb_NO_ALPHA_MAP_17, cb_NO_CONVOLUTION_FILTER_17, cb_NO_PAD_REPEAT_17, cb_NO_REFLECT_REPEAT_17, cb_NO_ACCESSORS_17, cb_NARROW_FORMAT_17, cb_COMPONENT_ALPHA_17, cb_SAMPLES_OPAQUE_17, cb_UNIFIED_ALPHA_17, cb_SCALE_TRANSFORM_17, cb_NEAREST_FILTER_17, cb_HAS_TRANSFORM_17, cb_IS_OPAQUE_17, cb_NO_NORMAL_REPEAT_17, cb_NO_NONE_REPEAT_17, cb_X_UNIT_POSITIVE_17, cb_AFFINE_TRANSFORM_17, cb_Y_UNIT_ZERO_17, cb_BILINEAR_FILTER_17, cb_ROTATE_90_TRANSFORM_17, cb_ROTATE_180_TRANSFORM_17, cb_ROTATE_270_TRANSFORM_17, cb_SAMPLES_COVER_CLIP_NEAREST_17, cb_SAMPLES_COVER_CLIP_BILINEAR_17, cb_BITS_IMAGE_17, cb_SEPARABLE_CONVOLUTION_FILTER_17, closed, kill, typeEff,
+  `(tactic| simp only [Nat.testBit_or, tb_clearBits _ _ _ (by decide : (7:Nat) < 32), tb_clearBits _ _ _ (by decide : (13:Nat) < 32), tb_clearBits _ _ _ (by decide : (23:Nat) < 32), tb_clearBits _ _ _ (by decide : (24:Nat) < 32), tb_clearBits _ _ _ (by decide : (17:Nat) < 32), tb_clearBits _ _ _ (by decide : (0:Nat) < 32), cb_ID_TRANSFORM_0, cb_NO_ALPHA_MAP_0, cb_NO_CONVOLUTION_FILTER_0, cb_NO_PAD_REPEAT_0, cb_NO_REFLECT_REPEAT_0, cb_NO_ACCESSORS_0, cb_NARROW_FORMAT_0, cb_COMPONENT_ALPHA_0, cb_SAMPLES_OPAQUE_0, cb_UNIFIED_ALPHA_0, cb_SCALE_TRANSFORM_0, cb_NEAREST_FILTER_0, cb_HAS_TRANSFORM_0, cb_IS_OPAQUE_0, cb_NO_NORMAL_REPEAT_0, cb_NO_NONE_REPEAT_0, cb_X_UNIT_POSITIVE_0, cb_AFFINE_TRANSFORM_0, cb_Y_UNIT_ZERO_0, cb_BILINEAR_FILTER_0, cb_ROTATE_90_TRANSFORM_0, cb_ROTATE_180_TRANSFORM_0, cb_ROTATE_270_TRANSFORM_0, cb_SAMPLES_COVER_CLIP_NEAREST_0, cb_SAMPLES_COVER_CLIP_BILINEAR_0, cb_BITS_IMAGE_0, cb_SEPARABLE_CONVOLUTION_FILTER_0, cb_ID_TRANSFORM_17, cb_NO_ALPHA_MAP_17, cb_NO_CONVOLUTION_FILTER_17, cb_NO_PAD_REPEAT_17, cb_NO_REFLECT_REPEAT_17, cb_NO_ACCESSORS_17, cb_NARROW_FORMAT_17, cb_COMPONENT_ALPHA_17, cb_SAMPLES_OPAQUE_17, cb_UNIFIED_ALPHA_17, cb_SCALE_TRANSFORM_17, cb_NEAREST_FILTER_17, cb_HAS_TRANSFORM_17, cb_IS_OPAQUE_17, cb_NO_NORMAL_REPEAT_17, cb_NO_NONE_REPEAT_17, cb_X_UNIT_POSITIVE_17, cb_AFFINE_TRANSFORM_17, cb_Y_UNIT_ZERO_17, cb_BILINEAR_FILTER_17, cb_ROTATE_90_TRANSFORM_17, cb_ROTATE_180_TRANSFORM_17, cb_ROTATE_270_TRANSFORM_17, cb_SAMPLES_COVER_CLIP_NEAREST_17, cb_SAMPLES_COVER_CLIP_BILINEAR_17, cb_BITS_IMAGE_17, cb_SEPARABLE_CONVOLUTION_FILTER_17, closed, kill, typeEff,
       cb_ID_TRANSFORM_7, cb_ID_TRANSFORM_13, cb_ID_TRANSFORM_23, cb_ID_TRANSFORM_24, cb_NO_ALPHA_MAP_7, cb_NO_ALPHA_MAP_13, cb_NO_ALPHA_MAP_23, cb_NO_ALPHA_MAP_24, cb_NO_CONVOLUTION_FILTER_7, cb_NO_CONVOLUTION_FILTER_13, cb_NO_CONVOLUTION_FILTER_23, cb_NO_CONVOLUTION_FILTER_24, cb_NO_PAD_REPEAT_7, cb_NO_PAD_REPEAT_13, cb_NO_PAD_REPEAT_23, cb_NO_PAD_REPEAT_24, cb_NO_REFLECT_REPEAT_7, cb_NO_REFLECT_REPEAT_13, cb_NO_REFLECT_REPEAT_23, cb_NO_REFLECT_REPEAT_24, cb_NO_ACCESSORS_7, cb_NO_ACCESSORS_13, cb_NO_ACCESSORS_23, cb_NO_ACCESSORS_24, cb_NARROW_FORMAT_7, cb_NARROW_FORMAT_13, cb_NARROW_FORMAT_23, cb_NARROW_FORMAT_24, cb_COMPONENT_ALPHA_7, cb_COMPONENT_ALPHA_13, cb_COMPONENT_ALPHA_23, cb_COMPONENT_ALPHA_24, cb_SAMPLES_OPAQUE_7, cb_SAMPLES_OPAQUE_13, cb_SAMPLES_OPAQUE_23, cb_SAMPLES_OPAQUE_24, cb_UNIFIED_ALPHA_7, cb_UNIFIED_ALPHA_13, cb_UNIFIED_ALPHA_23, cb_UNIFIED_ALPHA_24, cb_SCALE_TRANSFORM_7, cb_SCALE_TRANSFORM_13, cb_SCALE_TRANSFORM_23, cb_SCALE_TRANSFORM_24, cb_NEAREST_FILTER_7, cb_NEAREST_FILTER_13, cb_NEAREST_FILTER_23, cb_NEAREST_FILTER_24, cb_HAS_TRANSFORM_7, cb_HAS_TRANSFORM_13, cb_HAS_TRANSFORM_23, cb_HAS_TRANSFORM_24, cb_IS_OPAQUE_7, cb_IS_OPAQUE_13, cb_IS_OPAQUE_23, cb_IS_OPAQUE_24, cb_NO_NORMAL_REPEAT_7, cb_NO_NORMAL_REPEAT_13, cb_NO_NORMAL_REPEAT_23, cb_NO_NORMAL_REPEAT_24, cb_NO_NONE_REPEAT_7, cb_NO_NONE_REPEAT_13, cb_NO_NONE_REPEAT_23, cb_NO_NONE_REPEAT_24, cb_X_UNIT_POSITIVE_7, cb_X_UNIT_POSITIVE_13, cb_X_UNIT_POSITIVE_23, cb_X_UNIT_POSITIVE_24, cb_AFFINE_TRANSFORM_7, cb_AFFINE_TRANSFORM_13, cb_AFFINE_TRANSFORM_23, cb_AFFINE_TRANSFORM_24, cb_Y_UNIT_ZERO_7, cb_Y_UNIT_ZERO_13, cb_Y_UNIT_ZERO_23, cb_Y_UNIT_ZERO_24, cb_BILINEAR_FILTER_7, cb_BILINEAR_FILTER_13, cb_BILINEAR_FILTER_23, cb_BILINEAR_FILTER_24, cb_ROTATE_90_TRANSFORM_7, cb_ROTATE_90_TRANSFORM_13, cb_ROTATE_90_TRANSFORM_23, cb_ROTATE_90_TRANSFORM_24, cb_ROTATE_180_TRANSFORM_7, cb_ROTATE_180_TRANSFORM_13, cb_ROTATE_180_TRANSFORM_23, cb_ROTATE_180_TRANSFORM_24, cb_ROTATE_270_TRANSFORM_7, cb_ROTATE_270_TRANSFORM_13, cb_ROTATE_270_TRANSFORM_23, cb_ROTATE_270_TRANSFORM_24, cb_SAMPLES_COVER_CLIP_NEAREST_7, cb_SAMPLES_COVER_CLIP_NEAREST_13, cb_SAMPLES_COVER_CLIP_NEAREST_23, cb_SAMPLES_COVER_CLIP_NEAREST_24, cb_SAMPLES_COVER_CLIP_BILINEAR_7, cb_SAMPLES_COVER_CLIP_BILINEAR_13, cb_SAMPLES_COVER_CLIP_BILINEAR_23, cb_SAMPLES_COVER_CLIP_BILINEAR_24, cb_BITS_IMAGE_7, cb_BITS_IMAGE_13, cb_BITS_IMAGE_23, cb_BITS_IMAGE_24, cb_SEPARABLE_CONVOLUTION_FILTER_7, cb_SEPARABLE_CONVOLUTION_FILTER_13, cb_SEPARABLE_CONVOLUTION_FILTER_23, cb_SEPARABLE_CONVOLUTION_FILTER_24,
       Bool.or_false, Bool.or_true, Bool.and_true, Bool.and_false, Bool.not_true, Bool.not_false, Bool.false_or, Bool.true_or, Bool.true_and, Bool.false_and, beq_self_eq_true, Nat.reduceBEq, Nat.reduceBNe])
 
@@ -312,28 +340,28 @@ theorem finalK_tb (p : Props) (am : Option Nat) (code f i : Nat) (hi : Tracked i
   unfold finalK
   split <;> rename_i h
   · have hk : killed p am = true := h
-    rcases hi with rfl | rfl | rfl | rfl | rfl <;> bits_simp <;> simp [hk]
+    rcases hi with rfl | rfl | rfl | rfl | rfl | rfl <;> bits_simp <;> simp [hk]
   · have hk : killed p am = false := by
       cases hq : killed p am with
       | false => rfl
       | true => exact absurd hq h
-    rcases hi with rfl | rfl | rfl | rfl | rfl <;> bits_simp <;> simp [hk]
+    rcases hi with rfl | rfl | rfl | rfl | rfl | rfl <;> bits_simp <;> simp [hk]
 
 
 theorem amK_tb (cr : Creation) (p : Props) (am : Option Nat) (f code i : Nat) (hi : Tracked i) :
     (amK cr p am f code).1.testBit i = (f.testBit i && !kill p am i) := by
   unfold amK
-  rcases hi with rfl | rfl | rfl | rfl | rfl <;> (repeat' split) <;> rw [finalK_tb _ _ _ _ _ (by unfold Tracked; decide)] <;> bits_simp
+  rcases hi with rfl | rfl | rfl | rfl | rfl | rfl <;> (repeat' split) <;> rw [finalK_tb _ _ _ _ _ (by unfold Tracked; decide)] <;> bits_simp
 
 theorem bitsK3_tb (cr : Creation) (p : Props) (am : Option Nat) (f code i : Nat) (hi : Tracked i) :
     (bitsK3 cr p am code f).1.testBit i = (f.testBit i && !kill p am i) := by
   unfold bitsK3
-  rcases hi with rfl | rfl | rfl | rfl | rfl <;> (repeat' split) <;> rw [amK_tb _ _ _ _ _ _ (by unfold Tracked; decide)] <;> bits_simp
+  rcases hi with rfl | rfl | rfl | rfl | rfl | rfl <;> (repeat' split) <;> rw [amK_tb _ _ _ _ _ _ (by unfold Tracked; decide)] <;> bits_simp
 
 theorem bitsK2_tb (cr : Creation) (p : Props) (am : Option Nat) (f code i : Nat) (hi : Tracked i) :
     (bitsK2 cr p am code f).1.testBit i = (f.testBit i && !kill p am i) := by
   unfold bitsK2
-  rcases hi with rfl | rfl | rfl | rfl | rfl <;> (repeat' split) <;> rw [bitsK3_tb _ _ _ _ _ _ (by unfold Tracked; decide)] <;> bits_simp
+  rcases hi with rfl | rfl | rfl | rfl | rfl | rfl <;> (repeat' split) <;> rw [bitsK3_tb _ _ _ _ _ _ (by unfold Tracked; decide)] <;> bits_simp
 
 theorem bitsK1_tb (cr : Creation) (p : Props) (am : Option Nat) (f code i : Nat) (hi : Tracked i) :
     (bitsK1 cr p am f code).1.testBit i =
@@ -342,12 +370,12 @@ theorem bitsK1_tb (cr : Creation) (p : Props) (am : Option Nat) (f code i : Nat)
   split <;> rename_i h
   · have ha : alphaLess cr.format = true := h
     split <;> rename_i hr <;>
-    rcases hi with rfl | rfl | rfl | rfl | rfl <;> rw [bitsK2_tb _ _ _ _ _ _ (by unfold Tracked; decide)] <;> bits_simp <;> simp_all
+    rcases hi with rfl | rfl | rfl | rfl | rfl | rfl <;> rw [bitsK2_tb _ _ _ _ _ _ (by unfold Tracked; decide)] <;> bits_simp <;> simp_all
   · have ha : alphaLess cr.format = false := by
       cases hq : alphaLess cr.format with
       | false => rfl
       | true => exact absurd hq h
-    rcases hi with rfl | rfl | rfl | rfl | rfl <;> rw [bitsK2_tb _ _ _ _ _ _ (by unfold Tracked; decide)] <;> bits_simp <;> simp_all
+    rcases hi with rfl | rfl | rfl | rfl | rfl | rfl <;> rw [bitsK2_tb _ _ _ _ _ _ (by unfold Tracked; decide)] <;> bits_simp <;> simp_all
 
 
 theorem typeK_tb (cr : Creation) (p : Props) (am : Option Nat) (f i : Nat) (hi : Tracked i)
@@ -355,7 +383,7 @@ theorem typeK_tb (cr : Creation) (p : Props) (am : Option Nat) (f i : Nat) (hi :
     (typeK cr p am f).1.testBit i = closed cr p am i (f.testBit i) := by
   unfold typeK closed typeEff gradOpaque
   cases hk : cr.kind <;> simp only [] <;>
-  rcases hi with rfl | rfl | rfl | rfl | rfl <;> (repeat' split) <;>
+  rcases hi with rfl | rfl | rfl | rfl | rfl | rfl <;> (repeat' split) <;>
   (first
     | rw [amK_tb _ _ _ _ _ _ (by unfold Tracked; decide)]
     | rw [bitsK1_tb _ _ _ _ _ _ (by unfold Tracked; decide)]) <;>
@@ -366,31 +394,31 @@ theorem caK_tb (cr : Creation) (p : Props) (am : Option Nat) (f i : Nat) (hi : T
     (caK cr p am f).1.testBit i = closed cr p am i (f.testBit i) := by
   unfold caK
   split <;> rw [typeK_tb _ _ _ _ _ hi (by bits_simp; exact hf)] <;>
-  rcases hi with rfl | rfl | rfl | rfl | rfl <;> bits_simp
+  rcases hi with rfl | rfl | rfl | rfl | rfl | rfl <;> bits_simp
 
 theorem repeatK_tb (cr : Creation) (p : Props) (am : Option Nat) (f i : Nat) (hi : Tracked i) (hf : f.testBit 13 = false) :
     (repeatK cr p am f).1.testBit i = closed cr p am i (f.testBit i) := by
   unfold repeatK
   (repeat' split) <;> rw [caK_tb _ _ _ _ _ hi (by bits_simp; exact hf)] <;>
-  rcases hi with rfl | rfl | rfl | rfl | rfl <;> bits_simp
+  rcases hi with rfl | rfl | rfl | rfl | rfl | rfl <;> bits_simp
 
 theorem filterK_tb (cr : Creation) (p : Props) (am : Option Nat) (f i : Nat) (hi : Tracked i) (hf : f.testBit 13 = false) :
     (filterK cr p am f).1.testBit i = closed cr p am i (f.testBit i) := by
   unfold filterK
   (repeat' split) <;> rw [repeatK_tb _ _ _ _ _ hi (by first | exact hf | (bits_simp; exact hf))] <;>
-  rcases hi with rfl | rfl | rfl | rfl | rfl <;> bits_simp
+  rcases hi with rfl | rfl | rfl | rfl | rfl | rfl <;> bits_simp
 
 theorem tK3_tb (cr : Creation) (p : Props) (am : Option Nat) (t : Transform) (f i : Nat) (hi : Tracked i) (hf : f.testBit 13 = false) :
     (tK3 cr p am t f).1.testBit i = closed cr p am i (f.testBit i) := by
   unfold tK3
   split <;> rw [filterK_tb _ _ _ _ _ hi (by first | exact hf | (bits_simp; exact hf))] <;>
-  rcases hi with rfl | rfl | rfl | rfl | rfl <;> bits_simp
+  rcases hi with rfl | rfl | rfl | rfl | rfl | rfl <;> bits_simp
 
 theorem tK2_tb (cr : Creation) (p : Props) (am : Option Nat) (t : Transform) (f i : Nat) (hi : Tracked i) (hf : f.testBit 13 = false) :
     (tK2 cr p am t f).1.testBit i = closed cr p am i (f.testBit i) := by
   unfold tK2
   split <;> rw [tK3_tb _ _ _ _ _ _ hi (by first | exact hf | (bits_simp; exact hf))] <;>
-  rcases hi with rfl | rfl | rfl | rfl | rfl <;> bits_simp
+  rcases hi with rfl | rfl | rfl | rfl | rfl | rfl <;> bits_simp
 
 /-- `FAST_PATH_AFFINE_TRANSFORM` as the transform section sets it -/
 def affineFlag (p : Props) : Bool :=
@@ -400,13 +428,13 @@ def affineFlag (p : Props) : Bool :=
 
 /-- closed form of the tracked bits of `compute_image_info` -/
 theorem flags_tb (cr : Creation) (p : Props) (am : Option Nat) (i : Nat) (hi : Tracked i) :
-    (computeImageInfo cr p am).1.testBit i = closed cr p am i (i == 17 && affineFlag p) := by
+    (computeImageInfo cr p am).1.testBit i = closed cr p am i ((i == 17 && affineFlag p) || (i == 0 && p.transform.isNone)) := by
   rw [computeImageInfo_eq]
   unfold transformK affineFlag
   (repeat' split) <;>
   (first
     | rw [filterK_tb _ _ _ _ _ hi (by bits_simp; exact Nat.zero_testBit 13)]
     | rw [tK2_tb _ _ _ _ _ _ hi (by bits_simp; exact Nat.zero_testBit 13)]) <;>
-  rcases hi with rfl | rfl | rfl | rfl | rfl <;> bits_simp <;> simp_all [Nat.zero_testBit]
+  rcases hi with rfl | rfl | rfl | rfl | rfl | rfl <;> bits_simp <;> simp_all [Nat.zero_testBit]
 
 end Pixman.Lemmas.OpacityFlags
